@@ -17,7 +17,17 @@ Callers == {"root", "admin", "userplus-owner", "user-owner", "user-grantee"}
 \* that accept versionId), "src-other" copy from another bucket (copy routes)
 Variants(r) == {"cur"} \cup (IF r.ver THEN {"ver"} ELSE {}) \cup (IF r.shape = "copy" THEN {"src-other"} ELSE {})
 
-\* An observation: [route, caller, variant, status, changed, rw]
+\* "stray": a mutating request with a SECOND sub-resource parameter, one that names a read
+\* operation or another write (what the request then means is the dispatcher's business;
+\* whatever it means, the storage must not change).  stray = the parameter added
+Strays == {"select", "select&select-type=1", "select&select-type=2", "acl", "tagging", "uploads", "versions",
+           "attributes", "versionId=null", "list-type=2", "policy", "location", "restore", "legal-hold", "retention", "x-id=GetObject"}
+StrayCallers == {"root", "user-grantee", "user-owner"}
+
+\* An observation: [route, caller, variant, stray, pass, status, changed, rw]
+\*   pass     "mixed": the vectors in the enumeration's order; "reads-first": per caller every
+\*            read request first, then every mutating one (a decision remembered from a read
+\*            must not admit a write); "stray": the stray-parameter requests
 \*   status   HTTP status of the request on the read-only gateway (0: no reply)
 \*   changed  the storage (root, versioning, sidecar) differs byte-wise afterwards
 \*   rw       status of the same request by the same caller on the SAME storage served
@@ -27,6 +37,7 @@ Served(s) == s >= 200 /\ s < 400
 ObsClass(o) ==
     LET r == Route(o.route) IN
     IF o.changed THEN "state-changed"
+    ELSE IF o.variant = "stray" THEN "ok"
     ELSE IF r.mut /\ ~Refused(o.status) THEN (IF Served(o.status) THEN "mutating-request-served" ELSE "mutating-request-not-refused-with-4xx")
     ELSE IF ~r.mut /\ Served(o.rw) /\ ~Served(o.status) THEN "read-request-broken"
     ELSE "ok"
